@@ -46,6 +46,10 @@ def gen(rng, budget, tier):
     answers = ["y", "yes", "n", "no", "a", "all", "d,y", "d,n", "x,,no", "maybe,yes", "Y,n"]
     wraps = [f"c17.wrap {st} {ta} {an}" for st in ("known", "unknown", "changed") for ta in (0, 1) for an in answers]
     rng.shuffle(wraps)
+    # the client's context ends while an unknown host waits for the prompt: nobody approved it
+    yield "c17.wrap unknown 0 CANCEL"
+    yield "c17.wrap changed 0 CANCEL"
+    yield "c17.wrap known 0 CANCEL"
     for w in wraps[: (24 if tier == "quick" else len(wraps))]:
         yield w
     for i in range(budget):
